@@ -255,6 +255,9 @@ def c15(rng):
     fl = rng.choice([0, 0, 1 << (int(rng.choice(list(sf))[-1]) - 1), 0x80, 0x03])
     flh = '%02x' % fl
     pre = bytes(rng.getrandbits(8) for _ in range(rng.randint(1, 40)))
+    # the refund path is taken with a one-byte non-preimage (the builders' documented convention); it must differ from
+    # the real preimage, or the claim branch is the one that runs (a false alarm of this harness in the thorough tier)
+    dummy = b'\x00' if pre != b'\x00' else b'\x01'
     timeout = rng.choice([10, 30, 59])
     deadline = now + timeout
     builders = [(T.make_htlc_sha256_lock, T.make_htlc_witness, {}), (T.make_htlc_shake256_lock, T.make_htlc_witness, {'hash_size': rng.choice([16, 20, 32])}),
@@ -266,13 +269,13 @@ def c15(rng):
         cache = dict(sf, timestamp=now + dt)
         out.append((nm + ':claim t=now%+d' % dt, [bs(wit_f(SEEDS[rcv], pre, sf, flh)), bs(lock)], cache, cfg, True))
         exp = (now + dt >= deadline) and (dt < 60)
-        out.append((nm + ':refund t=now%+d deadline=now%+d' % (dt, timeout), [bs(wit_f(SEEDS[ref], b'\x00', sf, flh)), bs(lock)], cache, cfg, exp))
+        out.append((nm + ':refund t=now%+d deadline=now%+d' % (dt, timeout), [bs(wit_f(SEEDS[ref], dummy, sf, flh)), bs(lock)], cache, cfg, exp))
     cache = dict(sf, timestamp=now + timeout)
     out.append((nm + ':claim-wrong-preimage', [bs(wit_f(SEEDS[rcv], pre + b'x', sf, flh)), bs(lock)], dict(sf, timestamp=now), cfg, False))
     out.append((nm + ':claim-by-refund-key-before-timeout', [bs(wit_f(SEEDS[ref], pre, sf, flh)), bs(lock)], dict(sf, timestamp=now), cfg, False))
     out.append((nm + ':claim-by-other-key', [bs(wit_f(SEEDS[other], pre, sf, flh)), bs(lock)], cache, cfg, False))
-    out.append((nm + ':refund-by-other-key', [bs(wit_f(SEEDS[other], b'\x00', sf, flh)), bs(lock)], cache, cfg, False))
-    out.append((nm + ':refund-by-receiver-key', [bs(wit_f(SEEDS[rcv], b'\x00', sf, flh)), bs(lock)], cache, cfg, False))
+    out.append((nm + ':refund-by-other-key', [bs(wit_f(SEEDS[other], dummy, sf, flh)), bs(lock)], cache, cfg, False))
+    out.append((nm + ':refund-by-receiver-key', [bs(wit_f(SEEDS[rcv], dummy, sf, flh)), bs(lock)], cache, cfg, False))
     # PTLC
     tw = bytes(rng.getrandbits(8) for _ in range(32)) if rng.random() < 0.6 else None
     t = F.clamp_scalar(tw) if tw else None
@@ -869,4 +872,53 @@ def bld_cases(rng):
     out.append(('C17', 'BLD adapter_check_lock %s %s %s' % (flh, hx(Tp), hx(pk)), bs(l1)))
     out.append(('C17', 'BLD adapter_decrypt %s' % hx(t), bs(l2)))
     out.append(('C17', 'BLD single_sig_lock %s %s' % (hx(pk), flh), bs(l3)))
+    return out
+
+
+# ---------------------------------------------------------------- builder SOURCE texts vs the compile model
+def src_cases(rng):
+    """(name, Script) of real builder outputs with random arguments: their .src text goes through the model's
+    compile_text (tokenizer + assembler + ~! blocks on the VM model) and must give their .bytes"""
+    out = []
+    now = Pins.now
+    a, b, c = rng.sample(range(len(SEEDS)), 3)
+    sf = fields(rng)
+    flh = '%02x' % rng.choice([0, 1, 0x80, rng.getrandbits(8)])
+    R = _RealT
+    S = Script.from_src(rng.choice(LEAF_BODIES))
+    pre = bytes(rng.getrandbits(8) for _ in range(rng.randint(1, 40)))
+    cert = R.make_delegate_key_cert(SEEDS[a], PUBS[b], now - 10, now + 10)
+    mk = [
+        ('make_single_sig_lock', lambda: R.make_single_sig_lock(PUBS[a], flh)),
+        ('make_single_sig_lock2', lambda: R.make_single_sig_lock2(PUBS[a], flh)),
+        ('make_single_sig_witness', lambda: R.make_single_sig_witness(SEEDS[a], sf, flh)),
+        ('make_single_sig_witness2', lambda: R.make_single_sig_witness2(SEEDS[a], sf, flh)),
+        ('make_multisig_lock', lambda: R.make_multisig_lock([PUBS[a], PUBS[b], PUBS[c]], rng.randint(1, 3), flh)),
+        ('make_timestamp_after_lock', lambda: R.make_timestamp_after_lock(now + rng.choice([-200, 0, 5, 300]), rng.random() < 0.5)),
+        ('make_timestamp_before_lock', lambda: R.make_timestamp_before_lock(now + rng.choice([-200, 0, 5, 300]), rng.random() < 0.5)),
+        ('make_scripthash_lock', lambda: R.make_scripthash_lock(S, rng.choice([16, 20, 26, 32]))),
+        ('make_scripthash_witness', lambda: R.make_scripthash_witness(S)),
+        ('make_ptlc_lock', lambda: R.make_ptlc_lock(PUBS[a], PUBS[b], timeout=rng.choice([10, 60, 86400]), sigflags=flh)),
+        ('make_htlc_sha256_lock', lambda: R.make_htlc_sha256_lock(PUBS[a], PUBS[b], preimage=pre, timeout=30, sigflags=flh)),
+        ('make_htlc_shake256_lock', lambda: R.make_htlc_shake256_lock(PUBS[a], PUBS[b], preimage=pre, hash_size=rng.choice([16, 20, 32]), timeout=30, sigflags=flh)),
+        ('make_htlc2_sha256_lock', lambda: R.make_htlc2_sha256_lock(PUBS[a], PUBS[b], preimage=pre, timeout=30, sigflags=flh)),
+        ('make_htlc2_shake256_lock', lambda: R.make_htlc2_shake256_lock(PUBS[a], PUBS[b], preimage=pre, hash_size=20, timeout=30, sigflags=flh)),
+        ('make_htlc_witness', lambda: R.make_htlc_witness(SEEDS[a], pre, sf, flh)),
+        ('make_delegate_key_lock', lambda: R.make_delegate_key_lock(PUBS[a], flh)),
+        ('make_delegate_key_chain_lock', lambda: R.make_delegate_key_chain_lock(PUBS[a], flh)),
+        ('make_delegate_key_witness', lambda: R.make_delegate_key_witness(SEEDS[b], cert, sf, flh)),
+        ('make_graftroot_witness_keyspend', lambda: R.make_graftroot_witness_keyspend(SEEDS[a], sf, flh)),
+        ('make_taproot_lock', lambda: R.make_taproot_lock(PUBS[a], S, sigflags=flh)),
+        ('make_nonnative_taproot_lock', lambda: R.make_nonnative_taproot_lock(PUBS[a], S, sigflags=flh)),
+        ('make_taproot_witness_scriptspend', lambda: R.make_taproot_witness_scriptspend(PUBS[a], S)),
+        ('make_graftap_lock', lambda: R.make_graftap_lock(PUBS[a], flh)),
+        ('make_adapter_decrypt', lambda: R.make_adapter_decrypt(bytes(rng.getrandbits(8) for _ in range(32)))),
+        ('make_adapter_locks_pub[0]', lambda: R.make_adapter_locks_pub(PUBS[a], PUBS[b], flh)[0]),
+        ('make_ptlc_refund_witness', lambda: R.make_ptlc_refund_witness(SEEDS[a], sf, flh)),
+    ]
+    for nm, f in rng.sample(mk, 8):
+        try:
+            out.append((nm, f()))
+        except Exception as e:
+            out.append((nm, e))
     return out
